@@ -300,7 +300,7 @@ class C10(PropCheck):
 
     def generate(self):
         self._ensure_gen()
-        n_rec = 22 if self.tier == 'quick' else 300
+        n_rec = 60 if self.tier == 'quick' else 700
         r = self.rng
         for _ in range(n_rec):
             rec = self._recipe()
@@ -315,8 +315,10 @@ class C10(PropCheck):
                 q = self._query(rec)
                 pr = self._prior_spec(rec)
                 ys = [y for b in rec['batches'] for y in b['Y']]
-                thr = r.choice([None, 'q'] + ['v'] * 6)
-                if thr == 'q':
+                thr = r.choice([None, 'q', 'far'] + ['v'] * 6)
+                if thr == 'far':     # far lower tail: (t - mean)/sd below -38, normal pdf and cdf underflow in binary64
+                    thr = min(ys) - r.uniform(5, 60)
+                elif thr == 'q':
                     thr = sorted(ys)[len(ys) // 4]
                 elif thr == 'v':
                     thr = r.uniform(min(ys) - 0.5, sorted(ys)[len(ys) // 2] + 0.3)
